@@ -523,3 +523,84 @@ def _pythag(p):
 
 def equal(p, q):
     return is_zero(p - q)
+
+
+# ------------------------------------------------------------------ numeric cross-check of the rewriter
+import math as _math
+import hashlib as _hashlib
+
+
+def _atom_value(a, salt, lo=0.35, hi=0.85):
+    h = _hashlib.sha256((atom_key(a) + "|" + str(salt)).encode()).digest()
+    u = int.from_bytes(h[:8], "big") / float(1 << 64)
+    return lo + (hi - lo) * u
+
+
+_FN = {
+    "sin": _math.sin, "cos": _math.cos, "tan": _math.tan, "asin": _math.asin, "acos": _math.acos, "atan": _math.atan,
+    "sinh": _math.sinh, "cosh": _math.cosh, "tanh": _math.tanh, "asinh": _math.asinh, "acosh": _math.acosh, "atanh": _math.atanh,
+    "exp": _math.exp, "exp2": lambda x: 2.0 ** x, "exp_m1": _math.expm1, "ln": _math.log, "log2": _math.log2, "log10": _math.log10,
+    "ln_1p": _math.log1p, "abs": abs, "signum": lambda x: (x > 0) - (x < 0),
+}
+
+
+def eval_float(p, salt, shift=0.0):
+    """numeric value of a Poly at a pseudo-random point determined by `salt` (atoms -> values in (0.35, 0.85) + shift);
+    raises ValueError / OverflowError / ZeroDivisionError outside a function's domain"""
+    total = 0.0
+    for m, c in p.t.items():
+        term = float(c)
+        for a, e in m:
+            if a[0] in ("v", "c"):
+                if a == ("c", "n"):
+                    v = 2.0 + _atom_value(a, salt) * 3.0
+                else:
+                    v = _atom_value(a, salt) + shift
+            elif a[0] == "u":
+                v = eval_float(a[1], salt, shift)
+            elif a[0] == "f":
+                arg = eval_float(a[2], salt, shift)
+                name = a[1]
+                if name in _FN:
+                    v = _FN[name](arg)
+                else:
+                    # opaque function (table lookups, lane operations, ...): a fixed smooth pseudo-random function of its argument
+                    hh = _atom_value(("c", "fn:" + name), 0, 0.5, 1.5)
+                    v = _math.sin(hh * arg + hh) + 1.7
+            else:
+                raise ValueError("atom kind")
+            ex = float(e[0])
+            if e[1] != 0:
+                ex += float(e[1]) * (2.0 + _atom_value(("c", "n"), salt) * 3.0)
+            if ex != 1.0:
+                if v < 0 and ex != int(ex):
+                    raise ValueError("negative base")
+                v = v ** ex
+            term *= v
+        total += term
+    return total
+
+
+def numerically_equal(p, q, points=3):
+    """True / False / None (no usable point): compares two forms at pseudo-random points (identity testing of the extracted
+    formulas — used only to cross-check the exact rewriter, never to decide an obligation on its own)"""
+    used = 0
+    for salt in range(12):
+        if used >= points:
+            break
+        for shift in (0.0, 1.0):
+            try:
+                a = eval_float(p, salt, shift)
+                b = eval_float(q, salt, shift)
+            except (ValueError, OverflowError, ZeroDivisionError):
+                continue
+            if _math.isnan(a) or _math.isnan(b) or _math.isinf(a) or _math.isinf(b):
+                continue
+            used += 1
+            scale = max(1.0, abs(a), abs(b))
+            if abs(a - b) > 1e-7 * scale:
+                return False
+            break
+    if used == 0:
+        return None
+    return True
